@@ -76,7 +76,7 @@ def gen(rng):
     extra = set()
     for n_ in range(40):
         q = forced[n_] if n_ < len(forced) else rng.choice(QUERIES)
-        op = {'k': 'find', 'lexicon': rng.choice(['a:1', 'a:1', 'a:1 o:1', 'a:1 a:2', 'a:2 a:1 o:1']), 'form': q, 'pos': rng.choice([None, None, 'n', 'v', 'a', 'x']),
+        op = {'k': 'find', 'lexicon': rng.choice(['a:1', 'a:1', 'a:1 o:1', 'a:1 a:2', 'a:2 a:1 o:1', 'a:2', 'a:2 o:1']), 'form': q, 'pos': rng.choice([None, None, 'n', 'v', 'a', 'x']),
               'normalizer': rng.random() < 0.7, 'all_forms': rng.random() < 0.7,
               'lemmatizer': rng.choice([None, None, table, 'morphy', 'morphy_init'])}
         if n_ < len(forced):
@@ -110,6 +110,29 @@ def judge(ctx, sc, im):
             continue
         S = op['lexicon'].split()
         entries = [dict(e, _lex=s) for s in S for e in docs_[s].get('entries', [])]
+        # every found sense leads to the word it was declared under, every member of a found synset to its own word:
+        # entries of the selected lexicons, with their own forms
+        owner = {(e['_lex'], sn['id']): e for e in entries for sn in e.get('senses', [])}
+        members = {}
+        for e in entries:
+            for sn in e.get('senses', []):
+                members.setdefault((e['_lex'], sn['synset']), []).append(e)
+
+        def wexp(e):
+            return [e['_lex'], e['id'], [e['lemma']['writtenForm']] + [ff['writtenForm'] for ff in e.get('forms', [])]]
+        ambiguous = len({x.split(':')[0] for x in S}) < len(S)      # two selected lexicons share their ids: finding F5
+        for lx_, sid, wr in ([] if ambiguous else got.get('_sense_words', [])):
+            e = owner.get((lx_, sid))
+            if e is not None and wr != wexp(e):
+                ctx.fail('a-found-sense-leads-to-the-word-it-was-declared-under(with-that-word\'s-forms)', sc,
+                         {'op': op, 'sense': [lx_, sid], 'word()': wr, 'expected': wexp(e)})
+                break
+        for lx_, yid, wrs in ([] if ambiguous else got.get('_synset_words', [])):
+            exp_w = sorted(json.dumps(wexp(e)) for e in members.get((lx_, yid), []))
+            if (lx_, yid) in members and sorted(json.dumps(x) for x in wrs) != exp_w:
+                ctx.fail('the-members-of-a-found-synset-lead-to-their-own-words', sc,
+                         {'op': op, 'synset': [lx_, yid], 'words': wrs, 'expected': [json.loads(x) for x in exp_w]})
+                break
         lem = op.get('lemmatizer')
         if lem is None:
             lemf = None
@@ -180,8 +203,8 @@ def process(ctx, scs):
         if mo is not None:
             for k, (op, oi, om) in enumerate(zip(sc['ops'], im, mo)):
                 if op['k'] == 'find':
-                    ci = {a: sorted(map(tuple, b)) for a, b in oi.items()} if isinstance(oi, dict) else oi
-                    cm = {a: sorted(map(tuple, b)) for a, b in om.items()} if isinstance(om, dict) else om
+                    ci = {a: sorted(map(tuple, b)) for a, b in oi.items() if not a.startswith('_')} if isinstance(oi, dict) else oi
+                    cm = {a: sorted(map(tuple, b)) for a, b in om.items() if not a.startswith('_')} if isinstance(om, dict) else om
                     if ci != cm:
                         ctx.disagree(sc, oi, om, 'find ' + json.dumps({a: v for a, v in op.items() if a != 'k'}, ensure_ascii=False)[:300])
                         break
